@@ -124,7 +124,7 @@ public:
     }
 
     auto id = _nextId.fetch_add(1, std::memory_order_relaxed);
-    auto deadline = Clock::now() + delay;
+    auto deadline = deadlineAfter(Clock::now(), delay);
 
     std::lock_guard lock(_wheelMutex);
     // Re-check under the lock: stop()/drain() clear the wheel under _wheelMutex
@@ -168,7 +168,7 @@ public:
     }
     auto* entry = it->second;
     unlinkEntry(entry);
-    entry->deadline = Clock::now() + newDelay;
+    entry->deadline = deadlineAfter(Clock::now(), newDelay);
     insertEntry(entry, newDelay);
     return true;
   }
@@ -443,6 +443,21 @@ private:
     std::vector<Bucket> buckets;
     std::size_t currentTick = 0;
   };
+
+  /// \brief now + delay, with the delay clamped so that the deadline stays between
+  /// the clock's epoch and TimePoint::max(). A plain `Clock::now() + delay`
+  /// overflows for a delay of a few hundred years (e.g.
+  /// std::chrono::milliseconds::max() used as "never"): the deadline wrapped
+  /// into the past and the timer fired on the next tick. Keeping the deadline at
+  /// or after the epoch also keeps every later `deadline - now` representable.
+  static TimePoint deadlineAfter(TimePoint now, std::chrono::milliseconds delay)
+  {
+    const auto ahead =
+      std::chrono::duration_cast<std::chrono::milliseconds>(TimePoint::max() - now);
+    const auto behind =
+      std::chrono::duration_cast<std::chrono::milliseconds>(now.time_since_epoch());
+    return now + std::clamp(delay, -behind, ahead);
+  }
 
   void drainFreeList()
   {
